@@ -289,7 +289,7 @@ PLANS = {
                 "program runs in a FRESH mvexec process so the dispatch cache is uninitialised, all threads are released by a barrier and race to install the "
                 "implementation; every observed result is compared with what the same call returns when executed on its own after all threads have finished "
                 "(the property's 'what it would return in isolation'). Three forced CPU levels; Miri-owned schedules for a sample. "
-                "Non-trivial: >= 2 threads whose first operation is the same dispatched routine, or >= 2 threads in one-shot memmem::find with needles of different lengths.",
+                "A second storm flavor does the same on haystacks of 64 bytes and more. Non-trivial: >= 2 threads whose first operation is the same dispatched routine, or >= 2 threads in one-shot memmem::find with needles of different lengths.",
         "stages": [
             {"name": "threads", "cmd": "threads", "configs": cfgs(NATIVE), "shards": shards(16, 16), "needs_mvexec": True, "args": ["--scale", "16"]},
             {"name": "miri-schedules", "kind": "miri-threads", "configs": cfgs(["N-auto", "M-x86", "M-avx2"]),
@@ -303,7 +303,7 @@ PLANS = {
         "technique": 'model-based stateful property testing: generated operation histories (reuse, clone, as_ref, into_owned, freed needle buffer) against fresh-finder references',
         "rule": "Model-based histories: op lists (<= 40 before, <= 30 after the needle buffer is overwritten with garbage and freed) over Find/Rfind on any of 3-7 "
                 "needle-derived haystacks (incl. one that exhausts the prefilter), StartIter/StartRevIter, Step, CloneFinder, AsRef, IntoOwned, CloneIter, "
-                "IntoOwnedIter, CheckNeedle, and Buf (the haystack, cut / padded to a fixed length, is copied into ONE reused buffer that is then searched with find / "
+                "IntoOwnedIter, CheckNeedle, CloneDrop (clone an owned finder / iterator, drop the source, keep using the clone), and Buf (the haystack, cut / padded to a fixed length, is copied into ONE reused buffer that is then searched with find / "
                 "rfind / find_iter / rfind_iter: same address and length, different contents). Reference: a FRESH finder's answer for that haystack (history independence), a fresh uninterrupted iterator's sequence for clones and "
                 "owned conversions (they must continue at the same index); needle() equals the construction needle. The whole op vector shrinks as one value. "
                 "Non-trivial: >= 3 searches over >= 3 haystacks on one finder, a clone/into_owned taken from a partially consumed iterator, or >= 2 searches of the reused buffer.",
